@@ -141,12 +141,21 @@ func sketchConfigsFor(g *SketchGen, mx *SketchMatrix, thorough bool) []SketchCfg
 			kes = mid
 		}
 		// the second mapping (if any) only ever receives refused merges or its own adds: require its bins to exist too
-		for ri := 0; ri < len(mx.Reals)*len(mx.Reals); ri++ {
+		nr := len(mx.Reals)
+		nAssign := 1
+		for i := 0; i < nslots; i++ {
+			nAssign *= nr
+		}
+		// every assignment of real store types to the slots' positive stores (so that same-type pairs, which take
+		// the stores' fast paths, occur as often as mixed ones); the negative stores are a rotation of it
+		for ri := 0; ri < nAssign; ri++ {
 			posReal := make([]string, nslots)
 			negReal := make([]string, nslots)
+			x := ri
 			for s := 0; s < nslots; s++ {
-				posReal[s] = mx.Reals[(ri+s)%len(mx.Reals)]
-				negReal[s] = mx.Reals[(ri/len(mx.Reals)+2*s)%len(mx.Reals)]
+				posReal[s] = mx.Reals[x%nr]
+				negReal[s] = mx.Reals[(x%nr+ri/nr+s*(ri%2))%nr]
+				x /= nr
 			}
 			for _, ke := range kes {
 				ok := true
